@@ -10,12 +10,14 @@ from .containers import RealContainers
 from .refmodels import RefPQ, RefPos
 
 PROP = "C17"
-LEAN_TARGETS = ["Asynkit.Props.C17", "Asynkit.Lemmas.GenEq", "Asynkit.Lemmas.GenEqPQ", "Asynkit.Lemmas.GenEqPosPQ"]
-PROPS_FILES = ["Asynkit/Props/C17.lean", "Asynkit/Lemmas/GenEq.lean", "Asynkit/Lemmas/GenEqPQ.lean", "Asynkit/Lemmas/GenEqPosPQ.lean"]
+LEAN_TARGETS = ["Asynkit.Props.C17", "Asynkit.Lemmas.GenEq", "Asynkit.Lemmas.GenEqPQ", "Asynkit.Lemmas.GenEqPosPQ",
+                "Asynkit.Lemmas.GenEqHeapq"]
+PROPS_FILES = ["Asynkit/Props/C17.lean", "Asynkit/Lemmas/GenEq.lean", "Asynkit/Lemmas/GenEqPQ.lean", "Asynkit/Lemmas/GenEqPosPQ.lean",
+               "Asynkit/Lemmas/GenEqHeapq.lean"]
 DRIVERS = ["PQ"]
 TRUSTED = [
     'Lean 4.33 kernel; axioms ⊆ {propext, Classical.choice, Quot.sound} (audited per theorem each run)',
-    "hand-written: Asynkit/Model/Heap.lean (heapq's sift loops as the executable HeapLib) and the reference "
+    "hand-written: the reference "
     'specifications the refinement theorems relate the classes to; Model/{PQ,PosPQ}.lean are no longer trusted as'
     ' transcriptions (next two entries) but are still run against the code by the differential correspondence of '
     'this run (lean/Drivers/PQ.lean)',
@@ -30,8 +32,11 @@ TRUSTED = [
     "(translator/pospq2lean.py -> Gen/PosPQ.lean, over the PQ model's operations), proved equal to "
     'Model/PosPQ.lean (Lemmas/GenEqPosPQ.lean, 41 theorems); trusted there: Model/PosPQRt.lean (the self._pq.<m> '
     '-> PQ.<m> binding, PriorityValue objects by value, fuel-bounded while loops shown never to run out)',
-    "CPython heapq meets its documented contract (HeapLib.Lawful); the executable model transcribes heapq's sift "
-    'loops and is compared array-for-array with the real _pq (layout statistic)',
+    "translated, not trusted (stdlib): heapq._siftdown/_siftup/heappush/heappop/heapify are re-translated on every run "
+    "from heapq.py of the running interpreter (translator/heapq2lean.py -> Gen/Heapq.lean, sha256 + version recorded) and "
+    "proved equal to the model's Cpy.* (Lemmas/GenEqHeapq.lean), which cpyHeap_lawful proves lawful; trusted: the C "
+    "accelerator _heapq computes what heapq.py computes — tested on every run by the layout statistic (real _pq vs model "
+    "array) and by the differential stream heapq_c_vs_py",
     'list.sort is a stable sort by __lt__',
 ]
 ASSUMPTIONS = [
@@ -664,6 +669,9 @@ def exhaustive_pos(maxlen):
 
 def run(ctx):
     rng = ctx.rng
+    # what is left to trust about heapq after GenEqHeapq: the C accelerator vs heapq.py, array for array
+    from . import c17_heapq
+    c17_heapq.run(ctx, *((3000, 60) if ctx.thorough() else (300, 60)))
     explore(ctx, corpus_cases(), label="corpus: ")
     explore(ctx, list(shape_stream()), label="heap shapes: ")
     if ctx.thorough():
